@@ -103,3 +103,21 @@ claim("C14", "model_checking",
       "Trusted: TLC, the independent BIP-32 / secp256k1 implementation.",
       "TLC model checking of KeyLife.tla/ShamirLaws.tla + replay of enumerated derivation histories with an independent BIP-32 oracle",
       "DESIGN.md §3.5, §5 C14")
+
+claim("C09", "model_checking",
+      "Session.tla specifies the exact byte string hashed into a session tag (NewSession + IDSlice.WriteTo + WriteAny framing) and TLC checks TagInjective over ALL parameter tuples built from an identifier alphabet with equal concatenations and shared prefixes (and rejects the pre-fix encoding as a control); every realizable tuple is compared byte-exactly with the SSID of a real session (xor, FROST keygen, Taproot keygen), and all 14 start functions started with the same participants and session id must get pairwise different tags. Handler.tla's Isolation (foreign / re-addressed / malformed-header messages at every point change nothing) is model checked. On real sessions, messages of a second real session differing in exactly one of session id, protocol, participant set, threshold, key material, message, presignature are injected at random points: CanAccept must be false, the snapshot unchanged, the session must complete - the recorded calls are validated against Handler.tla; real messages replayed under another sender's name must not let the recipient complete.",
+      "Trusted: TLC, blake3 collision resistance. Key-material / message / presignature binding is checked for CMP only (as the statement says).",
+      "TLC model checking of Session.tla (tag injectivity) and Handler.tla (Isolation) + byte-exact tag vectors + cross-session replay with trace validation",
+      "DESIGN.md §5 C09")
+
+claim("C15", "fault_enumeration",
+      "Codec.tla holds, for the 8 result types, the field list with kinds, the validity rules the statement names and a corruption lattice (per field: absent, null, empty, zero, identity, wrong length, truncated / extended containers, duplicated / dropped parties, swapped fields, random bytes; whole object: empty, truncated, random, a valid encoding of another type); TLC computes the expected class of every case on an abstract object, checks that every rule and field is covered and rejects a structural-only decoder as a control. Every case is applied to the documented encoding of REAL material (FROST / Taproot / Doerner key generation, CMP configs, a real presignature, real signatures and wire messages) and given to the documented decoder; the restored object is judged with independent predicates. KeyLife.tla histories with store / restore are executed on the real protocols: the restored object must equal the original and work in the following signing session with the other parties' material.",
+      "The library validates restored material only for cmp.Config; the remaining types are recorded as known findings per (type, rule, class), so that a regression of an existing validation or a new failing (type, rule) is still reported.",
+      "TLC-enumerated corruption lattice (Codec.tla) applied to real encodings + KeyLife.tla store/restore histories on real protocols",
+      "DESIGN.md §5 C15")
+
+claim("C17", "model_checking",
+      "Atomic layer: Handler.tla with user Stop, abort notices, duplicates and late messages at every point of a 3-party session is model checked for ResultStable (once done / aborted, result, error kind and culprits never change) and Isolation. Lockset layer: the lock / field-access table of MultiHandler and TwoPartyHandler is EXTRACTED from the working tree, Lifecycle.tla (TLC) explores two concurrent method executions and predicts the racy pairs; every method pair is then run from two goroutines against a live real session (FROST keygen, xor, Doerner keygen) under Go's race detector, with lifecycle predicates (no panic, Stop ends the session, Result stable). Stop at every delivery position of real sessions, followed by Stop again, late / duplicate messages and Result twice, is recorded and validated against Handler.tla (close exactly once, closed iff ended).",
+      "Data races are observed by the Go race detector on generated executions; TLA+ does not model the Go memory model. Blocking forever is detected by per-call time limits.",
+      "TLC model checking of Handler.tla (lifecycle) and Lifecycle.tla (lockset) + race-detector runs of every method pair + trace validation of Stop scenarios",
+      "DESIGN.md §3.4, §5 C17")
